@@ -5,6 +5,7 @@ user submits local inputs, remote inputs arrive and `advance_frame` advances sev
 -/
 import GgrsModel.Proofs.World
 import GgrsModel.Proofs.Pair
+import GgrsModel.Proofs.HostSpec
 
 namespace Ggrs
 open P2P
@@ -133,5 +134,67 @@ theorem demo_pair_run (tA tB : TLState) : ∃ tA' tB', PStar ((demoSession, tA),
       (PStep.right _ _ _ (Half.localInput demoB1r _ (demoS2, _) 1 8)))
       (PStep.right _ _ _ (Half.tick _ demoB2 _ (demoS2, _) 0 (getOk (peerTick demoB1r 8)).2 f2))
   exact ⟨_, _, p6⟩
+
+/-! ### a concrete run of a host and its spectator -/
+
+/-- A running endpoint towards the spectator at address 9. -/
+def demoSpecEp : Endpoint := { Endpoint.new [2] 9 2 2 8 2000 500 60 none 77 0 with state := .running }
+
+/-- `demoSession` with a spectator attached. -/
+def demoHost : P2P :=
+  { demoSession with handles := [(0, .localPlayer), (1, .remote 1), (2, .spectator 9)], spectators := [(9, demoSpecEp)] }
+
+def hostTick (s : P2P) (v : Input) : Except String (P2P × List Request) :=
+  (s.addLocalInput 0 v).1.advanceRollbackFrame 0 []
+
+def demoH1 : P2P := (getOk (hostTick demoHost 5)).1
+def demoH1x : P2P := demoH1.userExecute (demoSaves (getOk (hostTick demoHost 5)))
+def demoH1r : P2P := getOk (demoH1x.handleEventCore 0 (.input ⟨0, 9⟩ 1) [1] 1)
+/-- this call confirms frame 0 and offers it to the spectator endpoint -/
+def demoH2 : P2P := (getOk (hostTick demoH1r 6)).1
+
+/-- The spectator (already synchronized with its host). -/
+def demoSpec : Spectator :=
+  { Spectator.new 2 (Endpoint.new [0, 1] 1 2 1 8 2000 500 60 none 78 0) 10 1 with running := true }
+def demoSpec1 : Spectator := getOk (Spectator.recvLoop 0 0 1 [5, 9] 0 demoSpec)
+def demoSpec2 : Spectator := (getOk demoSpec1.advanceAfterPoll).1
+
+theorem demo_okH1 : isOk (hostTick demoHost 5) = true := by decide
+theorem demo_okH1r : isOk (demoH1x.handleEventCore 0 (.input ⟨0, 9⟩ 1) [1] 1) = true := by decide
+theorem demo_okH2 : isOk (hostTick demoH1r 6) = true := by decide
+theorem demo_offered : demoH2.nextSpectatorFrame = 1 := by decide
+theorem demo_okSp1 : isOk (Spectator.recvLoop 0 0 1 [5, 9] 0 demoSpec) = true := by decide
+theorem demo_okSp2 : isOk demoSpec1.advanceAfterPoll = true := by decide
+/-- the spectator's call hands out one AdvanceFrame carrying the host's row of frame 0 -/
+theorem demo_spec_row : (getOk demoSpec1.advanceAfterPoll).2 =
+    .ok [.advance [(5, .confirmed), (9, .confirmed)]] := by decide
+
+/-- Host: input, call, saves, arrival, input, call (frame 0 confirmed and offered); the row of frame 0
+arrives at the spectator, read off the host's queues; the spectator advances. -/
+theorem demo_hostspec_run (t : TLState) :
+    ∃ t' n, HSStar ((demoHost, t), (demoSpec, [], 0)) ((demoH2, t'), (demoSpec2, [[5, 9]], n)) ∧ n = 1 := by
+  have e1 := ok_of_isOk _ demo_okH1
+  have e1r := ok_of_isOk _ demo_okH1r
+  have e2 := ok_of_isOk _ demo_okH2
+  have g1 := ok_of_isOk _ demo_okSp1
+  have g2 := ok_of_isOk _ demo_okSp2
+  have p1 := HSStar.step _ _ _ (HSStar.step _ _ _ (HSStar.step _ _ _ (HSStar.refl ((demoHost, t), (demoSpec, [], 0)))
+      (HSStep.host _ _ _ (SStep.localInput demoHost t 0 5)))
+      (HSStep.host _ _ _ (SStep.tick _ demoH1 t 0 (getOk (hostTick demoHost 5)).2 e1)))
+      (HSStep.host _ _ _ (SStep.saves demoH1 _ (demoSaves (getOk (hostTick demoHost 5)))))
+  have p2 := HSStar.step _ _ _ (HSStar.step _ _ _ (HSStar.step _ _ _ p1
+      (HSStep.host _ _ _ (SStep.remoteInput demoH1x demoH1r _ 0 ⟨0, 9⟩ 1 [1] 1 (by decide) (by decide) e1r)))
+      (HSStep.host _ _ _ (SStep.localInput demoH1r _ 0 6)))
+      (HSStep.host _ _ _ (SStep.tick _ demoH2 _ 0 (getOk (hostTick demoH1r 6)).2 e2))
+  have p3 := HSStar.step _ _ _ p2
+      (HSStep.specRecv (demoH2, _) demoSpec demoSpec1 [] 0 0 1 [5, 9] (by decide) (by decide : [5, 9].length = demoH2.sync.queues.length)
+        (by decide : (([] : List (List Input)).length : Int) < demoH2.nextSpectatorFrame)
+        (by decide : ∀ h, h < demoH2.sync.queues.length →
+          ((([] : List (List Input)).length : Nat) : Int) ≤ (rget demoH2.sync.queues h).lastAddedFrame ∧
+          (rget demoH2.sync.queues h).lastAddedFrame < ((([] : List (List Input)).length : Nat) : Int) + INPUT_QUEUE_LENGTH ∧
+          rget (rget demoH2.sync.queues h).inputs (([] : List (List Input)).length % INPUT_QUEUE_LENGTH) =
+            ⟨((([] : List (List Input)).length : Nat) : Int), [5, 9].getD h 0⟩) g1)
+  have p4 := HSStar.step _ _ _ p3 (HSStep.specAdvance (demoH2, _) demoSpec1 demoSpec2 [[5, 9]] 0 _ g2)
+  exact ⟨_, _, p4, by decide⟩
 
 end Ggrs
